@@ -765,7 +765,7 @@ func (c *CharSet) addNamedASCII(name string, negate bool) bool {
 	case "cntrl":
 		rs = []SingleRange{{0, 0x1f}, {0x7f, 0x7f}}
 	case "digit":
-		c.addDigit(false, negate)
+		rs = []SingleRange{{'0', '9'}}
 	case "graph":
 		rs = []SingleRange{{'!', '~'}}
 	case "lower":
@@ -775,7 +775,7 @@ func (c *CharSet) addNamedASCII(name string, negate bool) bool {
 	case "punct": //[!-/:-@[-`{-~]
 		rs = []SingleRange{{'!', '/'}, {':', '@'}, {'[', '`'}, {'{', '~'}}
 	case "space":
-		c.addSpace(true, false, negate)
+		rs = []SingleRange{{'\t', '\r'}, {' ', ' '}}
 	case "upper":
 		rs = []SingleRange{{'A', 'Z'}}
 	case "word":
